@@ -265,6 +265,23 @@ func (x *Exec) evalIdent(ce *CEnv, name string) *Val {
 			}
 		}
 	}
+	// local variable of the function under contract (resolved like $name)
+	if ce.fr != nil && ce.env != nil {
+		var out *Val
+		func() {
+			defer func() {
+				if r := recover(); r != nil {
+					if _, ok := r.(evalErr); !ok {
+						panic(r)
+					}
+				}
+			}()
+			out = x.loopVar(ce, name)
+		}()
+		if out != nil {
+			return out
+		}
+	}
 	cfail("unknown identifier %s", name)
 	return nil
 }
